@@ -186,9 +186,9 @@ def run_e2e(ctx):
                         if api == "recv_data" and (obs[0] != "ret" or obs[1] != p or obs[2] != 1):
                             ctx.violate("skip-passthrough", "bytes-changed", inp, "returns (1, payload)", str(obs),
                                         size=len(p) + len(frs))
-        # close reason
-        for skip in (False, True):
-            body = (1000).to_bytes(2, "big") + p
+        # close reason, under every class of status code that may appear on the wire
+        for skip, code in itertools.product((False, True), (1000, 1001, 1011, 3000, 3999, 4000, 4999)):
+            body = code.to_bytes(2, "big") + p
             if len(body) > 125:
                 continue
             ws, sock = simnet.make_ws([("chunk", simnet.srv_frame(8, body))], skip_utf8_validation=skip, mask_key=b"abcd")
@@ -197,8 +197,9 @@ def run_e2e(ctx):
                 obs = ("ret", r[0])
             except Exception as e:  # noqa
                 obs = ("exn", common.canon_exc(e))
-            ctx.case(key=("c", p, skip), nontrivial=True, cls=f"e2e:close-reason:skip={int(skip)}:wf={int(wf)}")
-            inp = {"op": "close-reason", "reason": p.hex(), "skip": skip}
+            ctx.case(key=("c", p, skip, code), nontrivial=True,
+                     cls=f"e2e:close-reason:skip={int(skip)}:wf={int(wf)}:code={'1xxx' if code < 3000 else '3xxx-4xxx'}")
+            inp = {"op": "close-reason", "reason": p.hex(), "skip": skip, "code": code}
             if not skip and wf and obs != ("ret", 8):
                 ctx.violate("close-reason-iff-wellformed", "well-formed-rejected", inp, "close frame accepted", str(obs), size=len(p))
             if not skip and not wf and obs[0] == "ret":
